@@ -90,6 +90,8 @@ def ob_migrate(ctx):
             W.install(extra_entries=legacy_entries(W, nleg))
             msg = W.msg('MigrateUnbondWaitList', limit=limit)
             sender = StrV(z3.Int('sender'))
+            W.mv['sender'] = sender.id
+            raw_scenario(W, 'execute', msg, sender, querier=hub_querier_template(W))
             for st, res in W.execute(msg, sender):
                 if not is_ok(res):
                     continue
@@ -99,7 +101,7 @@ def ob_migrate(ctx):
                 left = [e for e in st.stores[HUB].entries if e.fam == ('B', b'wait') and e.present is not False]
                 unpaused = not (pz.variant == 1 and pz.fields[0] is True)
                 if unpaused and left:
-                    ctx.violation('pause flag cleared while legacy wait-list entries remain', 'migrate:legacy', {'remaining': len(left)})
+                    ctx.infeasible(st, 'pause flag cleared while legacy wait-list entries remain', 'migrate:legacy', W.mv)
     ctx.need_witness('migrate Ok paths', n > 0)
     ctx.witness_found('migrate explored with 0..2 legacy entries, limit None/1')
 
@@ -174,6 +176,19 @@ def ORACLE(v, scn, out):
         return ['accepted while paused: ' + str(res)[:200]] if 'ok' in res else []
     if key == 'update_params:owner':
         return ['accepted from non-owner'] if ('ok' in res and scn['info']['sender'] != 'owner_addr') else []
+    if key == 'migrate:legacy':
+        import base64, json as js
+        from smir import rawstore
+        if 'ok' not in res:
+            return []
+        left, paused = 0, None
+        for k, val in out.get('storage', []):
+            kb = base64.b64decode(k)
+            if kb.startswith(rawstore.lp(b'wait')):
+                left += 1
+            if kb == b'\x00\x0bparameteres':
+                paused = js.loads(base64.b64decode(val)).get('paused')
+        return ['%d legacy entries remain but paused=%r' % (left, paused)] if left and paused is not True else []
     if key == 'update_params:legacy':
         body = scn['msg'].get('update_params', {})
         return ['unpaused with legacy entries'] if ('ok' in res and body.get('paused') is not True) else []
